@@ -3,6 +3,10 @@ From CfdmV Require Import Common.Base C02.Model.
 Open Scope string_scope.
 Open Scope Z_scope.
 
+(* short form of the usual construct identifiers in generated cases
+   (a string literal elaborates to a large term) *)
+Definition K (t : ctype) (n : nat) : key := key_base t ++ nat_str n.
+
 (* the abstract state as read back from the live object *)
 Definition ostate := (list centry * list (key * ctype) * list (key * list key)
                       * option (list Z) * option (list key))%type.
